@@ -30,15 +30,17 @@ import (
 // cursor (attributed to the committing thread) + after every step of a dependent.
 
 type c05Job struct {
-	Graph  string         `json:"graph"`
-	Steps  map[string]int `json:"steps"` // integration name -> number of Converge calls of its thread (0: never starts)
-	Batch  int            `json:"batch"`
-	Grow   bool           `json:"grow"`             // an environment thread reveals the last block
-	DStart uint64         `json:"dstart"`           // start block of the dependent "d" (default 1)
-	Blocks int            `json:"blocks,omitempty"` // chain length (default 3)
-	Pre    map[string]int `json:"pre,omitempty"`    // steps executed one after the other (config order) BEFORE the concurrent phase, by the same long-lived tasks
-	Reorg  int            `json:"reorg,omitempty"`  // > 0: the blocks above this fork block are replaced by a branch that is one block longer (by an environment thread of the concurrent phase, or, when Mid is set, right after the prefix)
-	Mid    map[string]int `json:"mid,omitempty"`    // steps executed one after the other right after a sequential reorganisation (a task with a warm header cache needs failing rounds before it can roll back)
+	Graph   string         `json:"graph"`
+	Steps   map[string]int `json:"steps"` // integration name -> number of Converge calls of its thread (0: never starts)
+	Batch   int            `json:"batch"`
+	Grow    bool           `json:"grow"`              // an environment thread reveals the last block
+	DStart  uint64         `json:"dstart"`            // start block of the dependent "d" (default 1)
+	Blocks  int            `json:"blocks,omitempty"`  // chain length (default 3)
+	Conc    int            `json:"conc,omitempty"`    // concurrency of the source (default 1)
+	R2Start uint64         `json:"r2start,omitempty"` // start block of the referenced integration "r2" (default 1)
+	Pre     map[string]int `json:"pre,omitempty"`     // steps executed one after the other (config order) BEFORE the concurrent phase, by the same long-lived tasks
+	Reorg   int            `json:"reorg,omitempty"`   // > 0: the blocks above this fork block are replaced by a branch that is one block longer (by an environment thread of the concurrent phase, or, when Mid is set, right after the prefix)
+	Mid     map[string]int `json:"mid,omitempty"`     // steps executed one after the other right after a sequential reorganisation (a task with a warm header cache needs failing rounds before it can roll back)
 }
 
 func (j c05Job) blocks() int {
@@ -80,12 +82,25 @@ func init() {
 
 var (
 	c05Registry = simeth.Addr("c05-registry")
-	c05V        = [7][]byte{nil, simeth.Addr("c05-v1"), simeth.Addr("c05-v2"), simeth.Addr("c05-v3"), simeth.Addr("c05-v4"), simeth.Addr("c05-v5"), simeth.Addr("c05-v6")} // `from` values registered with R1 in block m
-	c05U        = [7][]byte{nil, simeth.Addr("c05-u1"), simeth.Addr("c05-u2"), simeth.Addr("c05-u3"), simeth.Addr("c05-u4"), simeth.Addr("c05-u5"), simeth.Addr("c05-u6")} // emitters registered with R2 in block m
-	c05W        = [7][]byte{nil, simeth.Addr("c05-w1"), simeth.Addr("c05-w2"), simeth.Addr("c05-w3"), simeth.Addr("c05-w4"), simeth.Addr("c05-w5"), simeth.Addr("c05-w6")} // tx_to values registered with R1 in block m
 	c05X        = simeth.Addr("c05-unregistered-from")
 	c05Y        = simeth.Addr("c05-unregistered-emitter")
 )
+
+const c05MaxBlocks = 24
+
+// rounds of the just-started reference that fail on a header cached before the reorganisation (three
+// integrations share the cache) before the round that rolls back
+const c05R2FailingRounds = 1
+
+// values registered in block m: c05V `from` values (R1), c05U emitters (R2), c05W tx_to values (R1)
+var c05V, c05U, c05W = c05Vals("v"), c05Vals("u"), c05Vals("w")
+
+func c05Vals(l string) (out [c05MaxBlocks + 2][]byte) {
+	for m := 1; m < len(out); m++ {
+		out[m] = simeth.Addr(fmt.Sprintf("c05-%s%d", l, m))
+	}
+	return out
+}
 
 type c05Graph struct {
 	decls []*world.Decl       // config order
@@ -98,6 +113,9 @@ func c05Decls(j c05Job) *c05Graph {
 		return &world.Decl{Name: name, Table: table, Event: ev, Sources: src(1), Inputs: []world.Input{{Name: "who", Type: "address", Column: "who"}}}
 	}
 	r1, r2 := reg("r1", "rt1", "RegOne"), reg("r2", "rt2", "RegTwo")
+	if j.R2Start > 0 {
+		r2.Sources = src(j.R2Start)
+	}
 	if j.Reorg > 0 {
 		// a task notices a reorganisation only when it loads headers (parent hash): the referenced
 		// integrations select block_time (a header-only field) in the reorg jobs
@@ -283,10 +301,8 @@ func c05Jobs(thorough bool) []c05Job {
 		add(g, st("r1", 0, "r2", 0, "d", 2), 1, false, 1) // neither starts
 		add(g, st("r1", 2, "r2", 0, "d", 2), 2, false, 2)
 		add(g, st("r1", 1, "r2", 0, "d", 1), 1, true, 1)
-		if g == "two" {
-			add(g, st("r1", 1, "r2", 1, "d", 1), 1, true, 1)
-		}
 		if thorough {
+			add(g, st("r1", 1, "r2", 1, "d", 1), 1, true, 1)
 			add(g, st("r1", 1, "r2", 2, "d", 2), 1, false, 1)
 		}
 		if thorough && g == "two" {
@@ -316,7 +332,9 @@ func c05Jobs(thorough bool) []c05Job {
 	long("txfield", st("r1", 1, "d", 2), 3, false, 2, 5)
 	long("two", st("r1", 1, "r2", 2, "d", 1), 2, false, 2, 5)   // p = min(2, 4) = 2, local 1
 	long("chain", st("r1", 2, "d", 1, "d2", 1), 2, false, 2, 5) // D stops at 2..4, D2 (start 1) at D's position
-	add("chain", st("r1", 2, "d", 2, "d2", 1), 1, false, 1)
+	if thorough {
+		add("chain", st("r1", 2, "d", 2, "d2", 1), 1, false, 1)
+	}
 	add("chain", st("r1", 1, "d", 1, "d2", 2), 1, false, 1)
 	add("chain", st("r1", 1, "d", 2, "d2", 2), 2, false, 1)
 	if thorough {
@@ -350,6 +368,31 @@ func c05Jobs(thorough bool) []c05Job {
 	if thorough {
 		reorg("two", st("r1", 3, "r2", 3, "d", 1), st("r1", 5), st("r1", 1, "r2", 1, "d", 2), 1, 3, 1)
 		reorg("input", st("r1", 4, "d", 1), st("r1", 2), st("r1", 2, "d", 3), 1, 4, 1)
+	}
+	// batch_size not a multiple of concurrency: the referenced integration at every distance 1..batch ahead of the
+	// dependent, the head at least one batch beyond it (a partition that asks for too much finds the blocks)
+	for _, bc := range [][2]int{{3, 2}, {5, 2}, {5, 3}, {7, 3}} {
+		b, cc := bc[0], bc[1]
+		e := cc * (b / cc) // blocks per round
+		for k := 1; k <= b; k++ {
+			rounds := (k + e - 1) / e
+			pos := rounds * e
+			j := c05Job{Graph: "input", Steps: st("d", 1), Batch: b, Conc: cc, DStart: uint64(pos - k + 1), Blocks: pos + b + 1, Pre: st("r1", rounds)}
+			if k == b-1 { // the referenced integration keeps running
+				j.Steps = st("r1", 1, "d", 2)
+			}
+			if k == 2 {
+				j.Graph, j.Pre = "two", st("r1", rounds+1, "r2", rounds) // the slowest reference decides
+			}
+			jobs = append(jobs, j)
+		}
+	}
+	// a just-started second reference (one recorded position, start 3) whose only block is replaced: its round
+	// commits the roll-back (no position left) and then the re-indexed block; the dependent, which has seen both
+	// references started, runs at every point of that round
+	for _, g := range []string{"two", "two-or"} {
+		jobs = append(jobs, c05Job{Graph: g, Steps: st("r2", 1, "d", 1), Batch: 1, DStart: 1, R2Start: 3, Blocks: 3, Reorg: 2,
+			Pre: st("r1", 3, "r2", 1, "d", 1), Mid: st("r2", c05R2FailingRounds)})
 	}
 	// largest jobs first: round-robin sharding then spreads them over the workers
 	sort.SliceStable(jobs, func(a, b int) bool { return c05Weight(jobs[a]) > c05Weight(jobs[b]) })
@@ -389,11 +432,11 @@ type c05Prep struct {
 var c05PrepCache = map[string]*c05Prep{}
 
 func c05Prepare(j c05Job) (*c05Prep, error) {
-	key := fmt.Sprintf("%s/%d/%d/%d/%d", j.Graph, j.Batch, j.DStart, j.blocks(), j.Reorg)
+	key := fmt.Sprintf("%s/%d/%d/%d/%d/%d/%d", j.Graph, j.Batch, j.DStart, j.blocks(), j.Reorg, j.Conc, j.R2Start)
 	p, ok := c05PrepCache[key]
 	if !ok {
 		p = &c05Prep{g: c05Decls(j)}
-		p.conf = world.ConfJSON([]world.Source{{Name: "src1", ChainID: 7, URL: "http://node1", Batch: j.Batch, Conc: 1}}, p.g.decls)
+		p.conf = world.ConfJSON([]world.Source{{Name: "src1", ChainID: 7, URL: "http://node1", Batch: j.Batch, Conc: max(1, j.Conc)}}, p.g.decls)
 		conf, err := world.ParseConf(p.conf)
 		if err != nil {
 			return nil, err
@@ -480,7 +523,9 @@ func c05Exec(j c05Job, p *c05Prep, ch vrt.Chooser, states *vrt.StateSet, trace, 
 	// parked BEFORE one of its operations that does not commute with the other threads:
 	//   * a purely referenced integration (no filter_ref of its own) writes its table and cursor in
 	//     ONE commit and reads nothing another thread writes, so its step is atomic: it is left only
-	//     at step boundaries (and for the environment thread, at its RPC calls);
+	//     at step boundaries (and for the environment thread, at its RPC calls) — except in reorg jobs,
+	//     where a round commits the roll-back and then the re-indexed blocks: there it is also left
+	//     before each of its commits;
 	//   * a dependent is left before its dependency query, before every look-up and before the COPY
 	//     that follows the last look-up (quick tier), or before every SQL batch / RPC exchange
 	//     (thorough tier, "I/O granularity");
@@ -505,7 +550,9 @@ func c05Exec(j c05Job, p *c05Prep, ch vrt.Chooser, states *vrt.StateSet, trace, 
 			return ioOnly(l)
 		}
 		if _, dep := p.g.deps[base]; !dep {
-			return false
+			// a purely referenced integration: atomic step — except under a reorganisation, where its round
+			// commits twice (the roll-back, then the re-indexed blocks) and both commits are visible
+			return j.Reorg > 0 && strings.HasPrefix(l, "sql:query:commit")
 		}
 		if fullIO {
 			return ioOnly(l)
